@@ -295,3 +295,5 @@ def run(ctx):
     rule_a(ctx, R)
     rule_b(ctx, R)
     rule_c(ctx, R)
+    from .kernels import run_c16d
+    run_c16d(ctx)
